@@ -347,7 +347,7 @@ template<class P> static Built install_lexer(P& p, const std::vector<TermSpec>& 
             const TermSpec& t = ts[i];
             if (t.kind == 'c') { rgx::add_term_data_to_dfa(t.text[0], b, size16_t(i)); predicted_total += 2; }
             else if (t.kind == 's') {
-                switch (t.text.size()) { case 1: add_string<N, 2>(t.text, b, size16_t(i)); break; case 2: add_string<N, 3>(t.text, b, size16_t(i)); break; case 3: add_string<N, 4>(t.text, b, size16_t(i)); break; case 4: add_string<N, 5>(t.text, b, size16_t(i)); break; default: throw std::runtime_error("harness: string term too long"); }
+                switch (t.text.size()) { case 1: add_string<N, 2>(t.text, b, size16_t(i)); break; case 2: add_string<N, 3>(t.text, b, size16_t(i)); break; case 3: add_string<N, 4>(t.text, b, size16_t(i)); break; case 4: add_string<N, 5>(t.text, b, size16_t(i)); break; case 5: add_string<N, 6>(t.text, b, size16_t(i)); break; case 6: add_string<N, 7>(t.text, b, size16_t(i)); break; case 7: add_string<N, 8>(t.text, b, size16_t(i)); break; case 8: add_string<N, 9>(t.text, b, size16_t(i)); break; case 9: add_string<N, 10>(t.text, b, size16_t(i)); break; default: throw std::runtime_error("harness: string term too long"); }
                 predicted_total += (long)t.text.size() * 2;
             } else {
                 rgx::dfa_size_analyzer a; utils::no_stream ns0;
@@ -589,6 +589,13 @@ static void run_c04_wide() {
     std::vector<TermSpec> pool = {{'c', "a"}, {'r', "a|b"}, {'s', "a"}, {'s', "ab"}, {'r', "(a)"}, {'r', "ab|a"}, {'r', "ab?"}, {'r', "b|a"}, {'r', "a?b"}, {'r', "a|ab"}};
     if (cfg.pool == 0) pool.resize(8);
     std::vector<std::string> inputs; gen_inputs("abc ", cfg.maxlen, inputs);
+    if (cfg.pool == 2) {
+        // keyword-like string terms sharing long prefixes (no regex term: outside the known merge defect)
+        pool = {{'s', "if"}, {'s', "iff"}, {'s', "in"}, {'s', "int"}, {'s', "integer"}, {'s', "interface"}, {'c', "i"}, {'s', "inte"}};
+        gen_inputs("ifnt ", cfg.maxlen, inputs);
+        std::vector<std::string> kw = {"if", "iff", "in", "int", "integer", "interface", "i", "inte", "integ", "interfac", "interfaces", "intege", "ifi", "inti"};
+        for (auto& a : kw) { inputs.push_back(a); for (auto& b : kw) { inputs.push_back(a + b); inputs.push_back(a + " " + b); inputs.push_back(a + "\n" + b + " " + a); } }
+    }
     std::vector<std::vector<TermSpec>> sets; std::vector<int> pick;
     std::function<void(size_t)> rec = [&](size_t want) {
         if (pick.size() == want) { std::vector<TermSpec> ts; for (int i : pick) ts.push_back(pool[i]); sets.push_back(ts); return; }
